@@ -770,6 +770,18 @@ func randSig(r *rand.Rand) SigSpec {
 
 func runC11(w *core.W) {
 	runC11PathArgs(w)
+	// the spread marker without any argument, `f(...)`: nothing to spread - never a call
+	zi0 := 0
+	for _, ctx := range []bool{false, true} {
+		for _, sg := range []SigSpec{{Params: []string{}, Ret: "int"}, {Params: []string{"any"}, Variadic: true, Ret: "int"}, {Params: []string{"string"}, Variadic: true, Ret: "any"}, {Params: []string{"int"}, Ret: "int"},
+			{Params: []string{"string", "ints"}, Ret: "string"}, {Params: []string{"any", "int"}, Variadic: true, Ret: "float64"}} {
+			sg.Ctx = ctx
+			if zi0++; w.Mine(zi0) {
+				c11Bridge(w, &BridgeCase{Sig: sg, Args: []ArgSpec{}, Spread: true})
+				w.Count("spread_without_arguments")
+			}
+		}
+	}
 	r := w.RNG("sigs")
 	idx := 0
 	run := func(c *BridgeCase) {
